@@ -5,7 +5,7 @@
    Statements only. *)
 From Coq Require Import ZArith List Bool String.
 From NQ Require Import Base.Bits Lang.Codec Lang.CodecCheck Lang.Asm Lang.AsmSem Lang.AsmSemQ Lang.Text Lang.TextFront Lang.AsmCheck.
-From NQ Require Import Proofs.CodecProofs Proofs.AsmProofs Proofs.AsmQProofs Proofs.WireBridge Proofs.WireRange.
+From NQ Require Import Proofs.CodecProofs Proofs.AsmProofs Proofs.AsmQProofs Proofs.WireBridge Proofs.WireRange Proofs.AsmQMachine Proofs.AsmBuildTotal.
 From Gen Require Import Gen_Codec Gen_Asm.
 Import ListNotations.
 Open Scope Z_scope.
@@ -124,6 +124,80 @@ Proof.
   - exact (wire_unconditional_q_of _ (proj1 (proj2 (proj2 (proj2 C03W_tables_ok)))) (proj1 (proj2 (proj2 C03W_table_std)))).
 Qed.
 
+(* ---------- the assembler and the encoder accept: no premise about build / encoder left ---------- *)
+
+(* the mnemonics the semantics models, and those of them for which a flavour table has a row with the kinds of
+   the assembled form (rows a flavour lacks are simply not covered) *)
+Definition modelled_mnemonics : list string :=
+  (map fst opc_table ++ map fst gate_table ++ [MEAS; QALLOC; QFREE])%list.
+Definition covered (t : list row) : list string := filter (row_covers t) modelled_mnemonics.
+
+Theorem C03W_covered :
+  qexempt_exact gen_exempt = true
+  /\ row_covers gen_vanilla SET = true /\ row_covers gen_nv SET = true /\ row_covers gen_reids SET = true
+  /\ (List.length (covered gen_vanilla) = 39 /\ List.length (covered gen_nv) = 31 /\ List.length (covered gen_reids) = 26)%nat.
+Proof. vm_compute. repeat split; reflexivity. Qed.
+
+Lemma forallb_filter {A} (f : A -> bool) l : forallb f (filter f l) = true.
+Proof. induction l as [|x l IH]; [reflexivity|]. cbn [filter]. destruct (f x) eqn:E; [cbn [forallb]; rewrite E; exact IH|exact IH]. Qed.
+
+(* build_total_machine_form at the regenerated tables: for a program over covered mnemonics with defined labels the
+   flavour lookup and from_operands cannot fail on the assembler's output *)
+Definition build_total (t : list row) : Prop :=
+  forall P T, wf_src_q P = true -> labels_defined P = true ->
+    (forall mn args ops, In (AIns mn args ops) P -> In mn (covered t)) ->
+    assemble_ir gen_params P = AOk T -> exists B, build t T = Some B.
+
+Lemma build_total_of t : row_covers t SET = true -> build_total t.
+Proof.
+  intros Hset P T Hwf Hlab Hcov Hasm.
+  exact (build_total_machine_form gen_params t P T (proj1 C03W_covered) Hwf Hlab
+           (table_covers_of t (covered t) P (forallb_filter _ _) Hset Hcov) Hasm).
+Qed.
+
+Theorem C03W_build_total : build_total gen_vanilla /\ build_total gen_nv /\ build_total gen_reids.
+Proof.
+  split; [|split].
+  - exact (build_total_of _ (proj1 (proj2 C03W_covered))).
+  - exact (build_total_of _ (proj1 (proj2 (proj2 C03W_covered)))).
+  - exact (build_total_of _ (proj1 (proj2 (proj2 (proj2 C03W_covered))))).
+Qed.
+
+(* everything together: scratch registers suffice (need_cmd <= free_regs), labels distinct and defined, covered mnemonics,
+   src_fits: the assembler accepts, and if the result is shorter than 2^31 the encoder accepts, the decoder returns the
+   assembled instruction objects and they simulate the source *)
+Definition wire_total_q (t : list row) : Prop :=
+  forall P v0 v1 app,
+    wf_src_q P = true -> labels_defined P = true -> NoDup (labels_of P) ->
+    (forall mn args ops, In (AIns mn args ops) P -> In mn (covered t)) ->
+    (forall c, In c P -> (need_cmd gen_exempt c <= List.length (free_regs gen_params (named P)))%nat) ->
+    src_fits gen_exempt t P = true ->
+    fits_all (h_layout gen_header) [v0; v1; app] = true ->
+    exists B, assemble gen_params t P = AOk B /\
+      (Z.of_nat (List.length B) < 2 ^ 31 ->
+       exists bytes, encode_checked gen_header (mkSub v0 v1 app B) = Some bytes
+         /\ decode_sub gen_header t bytes = Some (mkSub v0 v1 app B)
+         /\ forall n ss st, eqv_q gen_params (named P) ss st ->
+            exists m, (n <= m)%nat /\ cfg_rel_q gen_params P (arun_q P n (QRun 0 ss)) (arun_q (map embed B) m (QRun 0 st))).
+
+Lemma wire_total_q_of t : wf_table t = true -> table_std t = true -> row_covers t SET = true -> wire_total_q t.
+Proof.
+  intros Ht Hstd Hset P v0 v1 app Hwf Hlab Hnd Hcov Hneed Hfit Hh.
+  destruct (assemble_total gen_params t P (proj1 C03W_covered) Hwf Hlab
+              (table_covers_of t (covered t) P (forallb_filter _ _) Hset Hcov) Hnd Hneed) as [B HB].
+  exists B. split; [exact HB|]. intros Hlen.
+  exact (wire_unconditional_q_of t Ht Hstd P B v0 v1 app Hwf Hfit HB Hlen Hh).
+Qed.
+
+Theorem C03W_wire_total : wire_total_q gen_vanilla /\ wire_total_q gen_nv /\ wire_total_q gen_reids.
+Proof.
+  split; [|split].
+  - exact (wire_total_q_of _ (proj1 (proj2 C03W_tables_ok)) (proj1 C03W_table_std) (proj1 (proj2 C03W_covered))).
+  - exact (wire_total_q_of _ (proj1 (proj2 (proj2 C03W_tables_ok))) (proj1 (proj2 C03W_table_std)) (proj1 (proj2 (proj2 C03W_covered)))).
+  - exact (wire_total_q_of _ (proj1 (proj2 (proj2 (proj2 C03W_tables_ok)))) (proj1 (proj2 (proj2 C03W_table_std)))
+             (proj1 (proj2 (proj2 (proj2 C03W_covered))))).
+Qed.
+
 (* non-vacuity: a text with a loop, labels, literals, bracket args, a gate, a scripted measurement is
    read, assembled for the vanilla table, ACCEPTED by the encoder, and the decoder returns the assembled
    instructions *)
@@ -156,3 +230,5 @@ Print Assumptions C03W_wire_vanilla.
 Print Assumptions C03W_wire_nv.
 Print Assumptions C03W_wire_reids.
 Print Assumptions C03W_wire_unconditional.
+Print Assumptions C03W_build_total.
+Print Assumptions C03W_wire_total.
